@@ -93,6 +93,9 @@ func (r *weightsRunner) run(cmd *cobra.Command, args []string) {
 }
 
 func (r *weightsRunner) execute(cmd *cobra.Command, args []string) error {
+	if r.digits < -1000 || r.digits > 1000 {
+		return fmt.Errorf("--digits must be between -1000 and 1000, got %d", r.digits)
+	}
 	ctx := cmd.Context()
 	reg := registry.New()
 	var universe performance.Universe
